@@ -200,6 +200,9 @@ func traversalExhaustiveness(c *Ctx, rule string, only []string) {
 	for h := range c.elementwiseCloners() {
 		extraRecursers[h] = true
 	}
+	for h := range c.elementwiseWalkers() {
+		extraRecursers[h] = true
+	}
 	want := func(k string) bool {
 		if only == nil {
 			return true
